@@ -1,4 +1,5 @@
 import CfrVerif.Proofs.Transforms
+import CfrVerif.Proofs.InvScaleLemmas
 import CfrVerif.Model.Eval
 /-!
 # C12, part 2: multiplying the payoffs by a positive constant
@@ -9,16 +10,16 @@ variable {α : Type} [Field α] [LinearOrder α] [IsStrictOrderedRing α]
 
 /-- payoffs do not influence construction (exact arithmetic: every payoff is finite) -/
 theorem fromRoot_mapPay (f : α → α) (r : Raw α) :
-    fromRoot (r.mapPay f) = (fromRoot r).map (Game.mapPay f) := by
-  sorry
+    fromRoot (r.mapPay f) = (fromRoot r).map (Game.mapPay f) :=
+  fromRoot_mapPay_aux f r
 
 /-- **evaluation is homogeneous**: utilities and regrets are multiplied by `c` (every game, every
 profile) -/
 theorem getInfo_scale (c : α) (hc : 0 < c) (g : Game α) (σ : Bool → Strat α) :
     (getInfo (g.mapPay (fun x => c * x)) σ).util = c * (getInfo g σ).util ∧
     (getInfo (g.mapPay (fun x => c * x)) σ).regretOne = c * (getInfo g σ).regretOne ∧
-    (getInfo (g.mapPay (fun x => c * x)) σ).regretTwo = c * (getInfo g σ).regretTwo := by
-  sorry
+    (getInfo (g.mapPay (fun x => c * x)) σ).regretTwo = c * (getInfo g σ).regretTwo :=
+  getInfo_scale_aux c hc g σ
 
 /-- the fall-back rule of regret matching is one of the three scale-free ones (uniform, best,
 worst action): every preset and the default -/
@@ -30,8 +31,8 @@ multiplied by `c` (the early-termination threshold scaled along) -/
 theorem solve_full_scale [Transc α] (c : α) (hc : 0 < c) (g : Game α) (p : RegretParams α)
     (hp : p.ScaleFree) (draw : DrawFn α) (T : Nat) (thr : Option (Ext α)) :
     solveVanillaSingle (g.mapPay (fun x => c * x)) false p draw T (thr.map (Ext.scale c))
-      = (solveVanillaSingle g false p draw T thr).scale c := by
-  sorry
+      = (solveVanillaSingle g false p draw T thr).scale c :=
+  solveWith_scale hc g _ _ (vanillaIter_scale hc g false p hp draw) T thr
 
 /-- the same for the two sampled solvers under fixed draws -/
 theorem solve_sampled_scale [Transc α] (c : α) (hc : 0 < c) (g : Game α) (p : RegretParams α)
@@ -39,7 +40,8 @@ theorem solve_sampled_scale [Transc α] (c : α) (hc : 0 < c) (g : Game α) (p :
     solveVanillaSingle (g.mapPay (fun x => c * x)) true p draw T (thr.map (Ext.scale c))
       = (solveVanillaSingle g true p draw T thr).scale c ∧
     solveExternalSingle (g.mapPay (fun x => c * x)) p draw T (thr.map (Ext.scale c))
-      = (solveExternalSingle g p draw T thr).scale c := by
-  sorry
+      = (solveExternalSingle g p draw T thr).scale c :=
+  ⟨solveWith_scale hc g _ _ (vanillaIter_scale hc g true p hp draw) T thr,
+   solveWith_scale hc g _ _ (externalIter_scale hc g p hp draw) T thr⟩
 
 end Cfr
